@@ -1,5 +1,5 @@
 """C33 — each gated feature really consults the gate: the real front end (decorator, parser,
-CFG builder, checker) runs on four fixed programs with the flag symbolic."""
+CFG builder, checker) runs on fixed programs (every gate call site in several shapes) with the flag symbolic."""
 import lib.repo_env
 lib.repo_env.shim()
 import guppylang_internals.experimental as E
@@ -53,7 +53,92 @@ def p_plain(x: int) -> int:
     return y
 
 
-PROGS = [p_list, p_tensor, p_closure, p_modifier]
+from collections.abc import Callable  # noqa: E402
+
+
+@guppy
+def p_list_checked(x: int) -> int:
+    xs: list[int] = [x, x]
+    return x
+
+
+@guppy
+def p_list_comprehension(x: int) -> int:
+    xs = [i for i in range(x)]
+    return x
+
+
+@guppy
+def p_list_annotation(xs: list[int]) -> int:
+    return 0
+
+
+@guppy
+def p_tensor_checked(x: int) -> int:
+    r: tuple[int, int] = (_g1, _g2)(x, x)
+    return r[0]
+
+
+@guppy
+def p_closure_callable(f: Callable[[], int]) -> int:
+    def inner() -> int:
+        return f()
+
+    return inner()
+
+
+@guppy
+def p_closure_local_function(x: int) -> int:
+    def first(y: int) -> int:
+        return y + 1
+
+    def second(y: int) -> int:
+        return first(y)
+
+    return second(x)
+
+
+@guppy
+def p_closure_two(x: int, y: float) -> float:
+    def inner() -> float:
+        return x + y
+
+    return inner()
+
+
+@guppy
+def p_closure_nested_twice(x: int) -> int:
+    def outer_() -> int:
+        def inner() -> int:
+            return x
+
+        return inner()
+
+    return outer_()
+
+
+@guppy
+def p_modifier_control(q: qubit, c: qubit) -> None:
+    with control(c):  # noqa: F821
+        h(q)
+
+
+@guppy
+def p_modifier_power(q: qubit) -> None:
+    with power(2):  # noqa: F821
+        h(q)
+
+
+@guppy
+def p_modifier_stack(q: qubit, c: qubit) -> None:
+    with dagger, control(c):  # noqa: F821
+        h(q)
+
+
+PROGS = [p_list, p_tensor, p_closure, p_modifier, p_list_checked, p_list_comprehension, p_list_annotation, p_tensor_checked,
+         p_closure_callable, p_closure_local_function, p_closure_two, p_closure_nested_twice, p_modifier_control, p_modifier_power,
+         p_modifier_stack]
+NPROGS = len(PROGS)
 
 
 def _outcome(prog) -> str:
@@ -71,14 +156,14 @@ def _outcome(prog) -> str:
 
 def h_sites(flag: bool, which: int) -> bool:
     """
-    pre: 0 <= which < 4
+    pre: 0 <= which < NPROGS
     post: _
     """
     # fork on the symbolic inputs, then run the (set-descriptor-heavy) front end untraced on the
     # concrete values of this path
     cflag = True if flag else False
     cwhich = 0
-    for i in range(4):
+    for i in range(NPROGS):
         if which == i:
             cwhich = i
     with NoTracing():
